@@ -209,13 +209,21 @@ def handover_failures(res):
         if call["macros"] or call["string"] == "" or call["string"] not in fs:
             skipped += 1
             continue
-        n_calls += 1
         o = offset_of(fs, call["line"], call["col"])
         if o is None or not fs.startswith(call["string"], o):
-            bad.append(dict(kind="hand-over", text=call["string"][:200], passed=[call["line"], call["col"]],
-                            true_positions=[list(pos_of(fs, m.start())) for m in
-                                            re.finditer(re.escape(call["string"]), fs)][:3]))
+            # raw text handed over at a wrong position, or text that merely resembles the source (merged /
+            # cleaned-up / substituted tokens are re-tokenised too)?  It is a wrong position iff the very text
+            # sits on the same line within three columns of the position that was passed.
+            near = [m.start() for m in re.finditer(re.escape(call["string"]), fs)
+                    if pos_of(fs, m.start())[0] == call["line"] and abs(pos_of(fs, m.start())[1] - call["col"]) <= 3]
+            if near:
+                n_calls += 1
+                bad.append(dict(kind="hand-over", text=call["string"][:200], passed=[call["line"], call["col"]],
+                                true_positions=[list(pos_of(fs, x)) for x in near][:3]))
+            else:
+                skipped += 1
             continue
+        n_calls += 1
         if call["out"]["kind"] == "ok":
             for st in call["out"]["programs"]:
                 for tok in st:
